@@ -15,7 +15,7 @@
    parser keeps or hides); decided on the C03 stream by the marker-word
    oracle of harness/props/c03.py together with the correspondence run. *)
 From YV Require Import PyBase CharTables Token Utils Rpal PState Parser Exec Ml
-                       RpalProofs MlProofs ExpandSites ExecPlain ExecUnk Catalogue.
+                       RpalProofs MlProofs ExpandSites ExecPlain ExecUnk ExecArgs Catalogue.
 Open Scope Z_scope.
 
 (* (1) removal of pure action lines: the characters that are no white space
@@ -47,19 +47,19 @@ Proof. exact gen_repl_subst. Qed.
 Print Assumptions C03_macro_body.
 
 (* (4) end to end through the main loop of the expander, for every token
-   list of plain text, undeclared control words, comments and grouping
-   braces: every character of the text that is no white space is in the
+   list of plain text, undeclared control words, comments, grouping
+   braces and pass-through macros with braced arguments (nested): every character of the text that is no white space is in the
    output, in order, and nothing else -- the markup vanishes, the words stay *)
 Theorem C03_words_stay_markup_vanishes : forall rd fuel toks st st' out,
-  Forall (ucls py_tables (macros st)) toks ->
+  bcl py_tables (macros st) toks ->
   exec py_tables rd fuel (TSeq toks None []) st = Ok (st', ASeq out []) ->
   ExecUnk.nst py_tables out = ExecUnk.nst py_tables (plains toks) /\
-  unknowns st' = fold_left add_unknown (names toks) (unknowns st) /\
+  unknowns st' = fold_left add_unknown (unames (macros st) toks) (unknowns st) /\
   macros st' = macros st.
 Proof.
   exact (fun rd fuel toks st st' out =>
-           exec_unknowns_text py_tables rd (eq_refl true) (fun c => eq_refl) fuel toks st st' out
-                              (eq_refl true)).
+           exec_args_text py_tables rd (eq_refl true) (fun c => eq_refl) fuel toks st st' out
+                          (eq_refl true)).
 Qed.
 Print Assumptions C03_words_stay_markup_vanishes.
 
